@@ -511,6 +511,26 @@ def run(ctx) -> None:
             rep.add("C20.R6", f"{f.qname}:returned-node-visible:{v_}", seen_vis, f"{f.module.rel}:{c.lineno}", "a node is returned only after is_node_visible(<that node>) held" if seen_vis else f"'{v_}' is returned as an edge endpoint without having been tested for visibility itself (e.g. visibility decided once for the container): a hide=True child becomes the endpoint — the edge is dropped by the caller's re-check or drawn to a node that is not declared in that state")
     if n_ep < 1:
         raise AnalysisError("no scope function returning iterated node ids found")
+    # depth -> expansion: a container at nesting level L is expanded iff depth > L.  Written as a comparison with the
+    # counted ancestors, or recursively over the parent — then every step up consumes one unit of depth
+    ine = db.func("viz._common.is_node_expanded")
+    dpar = next((p_ for p_ in ine.param_names if "depth" in p_), None)
+    if dpar is None:
+        raise AnalysisError("is_node_expanded: depth parameter not found")
+    selfcalls = [c for c in db.calls_in(ine) if any(cal.func is ine for cal in db.resolve_call(c, ine))]
+    okd, whyd = True, "depth is compared with the container's counted nesting level"
+    for c in selfcalls:
+        a_ = (bind_args(c, ine) or {}).get(dpar)
+        if not (isinstance(a_, ast.BinOp) and isinstance(a_.op, ast.Sub) and isinstance(a_.left, ast.Name) and a_.left.id == dpar and isinstance(a_.right, ast.Constant) and a_.right.value == 1):
+            okd, whyd = False, f"the recursion over the parent passes '{src(a_) if a_ is not None else '?'}' as depth instead of {dpar} - 1: every container below the first level counts as level 1, so depth=2 expands all deeper levels (their inner nodes are declared and wired although that state shows them collapsed)"
+        else:
+            whyd = "each step up to the parent consumes one unit of depth"
+    if not selfcalls:
+        cmps = [x for x in walk_local(ine.node) if isinstance(x, ast.Compare) and any(isinstance(y, ast.Name) and y.id == dpar for y in [x.left] + list(x.comparators))]
+        okd = bool(cmps)
+        if not okd:
+            whyd = "depth is not compared with the nesting level"
+    rep.add("C20.R3", f"{ine.qname}:depth-per-level", okd, ine.loc(), whyd)
 
 
 def _sep_terminated(a: ast.AST) -> bool:
